@@ -7,6 +7,8 @@ use crate::world::*;
 use crate::{must, scen, tryv};
 use deltio::pubsub_proto::StreamingPullRequest;
 
+const PUSH_SUB: &str = "projects/p/subscriptions/pushed";
+
 #[derive(Clone, Debug)]
 enum Case {
     /// (rpc, field) takes the odd name
@@ -61,6 +63,13 @@ fn cases() -> Vec<Case> {
             v.push(Case::Name(f, n));
         }
     }
+    // creating what already exists is rejected, and rejected requests change nothing (not even hidden registrations)
+    for n in [T0, T1] {
+        v.push(Case::Name("create-topic.name", n.to_string()));
+    }
+    for n in [S0, S1, PUSH_SUB] {
+        v.push(Case::Name("create-sub.name", n.to_string()));
+    }
     for rpc in ["ack", "modify", "stream-ack", "stream-modify"] {
         for id in ["", "x", "-1", "1.5", "18446744073709551616", " 1", "1 ", "+1", "0x1", "١", "1\u{0}", "99999999999999999999999999999"] {
             for pos in 0..3 {
@@ -102,6 +111,8 @@ struct Snapshot {
     ts0: Result<(Vec<String>, String), Code>,
     ts1: Result<(Vec<String>, String), Code>,
     stats: Vec<Option<Stats>>,
+    /// names registered for HTTP push (internal registry)
+    push_registry: Vec<String>,
 }
 
 async fn snapshot(cx: &Ctx) -> Result<Snapshot, Verdict> {
@@ -122,7 +133,9 @@ async fn snapshot(cx: &Ctx) -> Result<Snapshot, Verdict> {
     for s in [S0, S1] {
         stats.push(cx.stats(s).await?);
     }
-    Ok(Snapshot { topics_p, topics_q, subs_p, subs_q, ts0, ts1, stats })
+    let mut push_registry: Vec<String> = cx.parts.push.entries().into_iter().map(|(n, c)| format!("{} -> {}", n, c.endpoint)).collect();
+    push_registry.sort();
+    Ok(Snapshot { topics_p, topics_q, subs_p, subs_q, ts0, ts1, stats, push_registry })
 }
 
 /// Reads a stream to its end; returns the terminal status ("OK" for a clean end) and the number of messages seen.
@@ -153,6 +166,7 @@ fn unit() -> Unit {
         must!(cx, "setup:create-topic", { let a = a.clone(); async move { a.create_topic(T1).await } });
         must!(cx, "setup:create-sub", { let a = a.clone(); async move { a.create_sub(S0, T0, 10, None).await } });
         must!(cx, "setup:create-sub", { let a = a.clone(); async move { a.create_sub(S1, T1, 10, None).await } });
+        must!(cx, "setup:create-push-sub", { let a = a.clone(); async move { a.create_sub(PUSH_SUB, T1, 10, Some("http://push.example/hook")).await } });
         must!(cx, "setup:publish", { let a = a.clone(); async move { a.publish(T0, vec![(b"one".to_vec(), vec![]), (b"two".to_vec(), vec![])]).await } });
         let held = must!(cx, "setup:pull", { let a = a.clone(); async move { a.pull(S0, 1, true).await } });
         let good_id = held[0].ack_id.clone();
